@@ -154,11 +154,12 @@ def run_window_history(chk, spec):
 		c12.run_aggregate(chk, s2, table=t)
 
 
-RUNNERS = {"nested_apply": c12.run_nested_apply, "window": run_window, "window_history": run_window_history, "agg_chain": c12.run_agg_chain, "label_keys": c12.run_label_keys}
+RUNNERS = {"key_forms_sequence": c12.run_key_forms_sequence, "nested_apply": c12.run_nested_apply, "window": run_window, "window_history": run_window_history, "agg_chain": c12.run_agg_chain, "label_keys": c12.run_label_keys}
 RUNNERS["recompute"] = recompute.runner("C13")
 
 
 def run(chk):
+	c12.key_form_cases(chk, "window")
 	for spec in c12.directed_specs("window"):
 		chk.case("window", spec, "window-directed")
 	for inner in ("aggregate", "window"):
